@@ -17,7 +17,7 @@ import logging
 import time
 from typing import Dict, Set, Tuple
 
-from .file_manager import FileManager
+from .file_manager import FileManager, recorded_manifest_count
 from .metadata_manager import MetadataManager
 
 logger = logging.getLogger(__name__)
@@ -97,10 +97,18 @@ class GarbageCollector:
         reachable_manifest_lists: Set[str] = set()
 
         # Add manifest lists from all snapshots
+        # Entry counts recorded by the referencing file, so a manifest (list)
+        # truncated at an Avro block boundary aborts GC instead of hiding files.
+        expected_manifests: Dict[str, int] = {}
+        expected_entries: Dict[str, int] = {}
         for snapshot in metadata.snapshots:
             m_list_path = snapshot.manifest_list
             if m_list_path:
-                reachable_manifest_lists.add(self._normalize_path(m_list_path))
+                norm_list = self._normalize_path(m_list_path)
+                reachable_manifest_lists.add(norm_list)
+                recorded = recorded_manifest_count(snapshot)
+                if recorded is not None:
+                    expected_manifests[norm_list] = recorded
 
         # Process manifest lists to find manifests and data files
         for m_list_path in reachable_manifest_lists:
@@ -109,7 +117,9 @@ class GarbageCollector:
                     raise FileNotFoundError(
                         f"Snapshot references missing manifest list: {m_list_path}"
                     )
-                manifests = self.file_manager.read_manifest_list_file(m_list_path)
+                manifests = self.file_manager.read_manifest_list_file(
+                    m_list_path, expected_manifests=expected_manifests.get(m_list_path)
+                )
             except Exception as e:
                 raise GarbageCollectionAborted(
                     f"Aborting GC: cannot read reachable manifest list {m_list_path}: {e}. "
@@ -118,7 +128,11 @@ class GarbageCollector:
             for m in manifests:
                 m_path = m.manifest_path
                 if m_path:
-                    reachable_manifests.add(self._normalize_path(m_path))
+                    norm_manifest = self._normalize_path(m_path)
+                    reachable_manifests.add(norm_manifest)
+                    count = self.file_manager.expected_entry_count(m)
+                    if count is not None:
+                        expected_entries[norm_manifest] = count
 
         # Process manifests to find data files
         for m_path in reachable_manifests:
@@ -127,7 +141,9 @@ class GarbageCollector:
                     raise FileNotFoundError(
                         f"Manifest list references missing manifest: {m_path}"
                     )
-                data_files = self.file_manager.read_manifest_file(m_path)
+                data_files = self.file_manager.read_manifest_file(
+                    m_path, expected_entries=expected_entries.get(m_path)
+                )
             except Exception as e:
                 raise GarbageCollectionAborted(
                     f"Aborting GC: cannot read reachable manifest {m_path}: {e}. "
